@@ -259,8 +259,14 @@ pub fn random_case(rng: &mut Rng, o: &GenOpts) -> RCase {
     let strip = o.strip_max > o.max_side && rng.chance(1, 12);
     let (sw, sh, dw, dh);
     if strip {
-        let long_s = rng.size(o.strip_max);
-        let long_d = rng.size(o.strip_max.min(2048));
+        let mut long_s = rng.size(o.strip_max);
+        let mut long_d = rng.size(o.strip_max.min(2048));
+        if o.strip_max >= 4096 && rng.chance(1, 20) {
+            // both extents long (indices, offsets and products of extents beyond 2^16 / 2^32 along one axis)
+            const L: [u32; 12] = [4095, 4097, 8191, 8193, 16385, 32767, 32769, 65535, 65536, 65537, 70001, 46341];
+            long_s = *rng.pick(&L) + rng.below(2) as u32;
+            long_d = *rng.pick(&L) + rng.below(2) as u32;
+        }
         let short_s = rng.range(1, 3) as u32;
         let short_d = rng.range(1, 3) as u32;
         if rng.chance(1, 2) {
